@@ -1075,14 +1075,26 @@ func FunctionMap() map[string]physical.FunctionDetails {
 						if ts[1].TypeID != octosql.TypeIDList {
 							return octosql.Type{}, false
 						}
+						if ts[1].List.Element != nil && octosql.Null.Is(*ts[1].List.Element) == octosql.TypeRelationIs {
+							return octosql.TypeSum(octosql.Boolean, octosql.Null), true
+						}
 						return octosql.Boolean, true
 					},
 					Strict: true,
 					Function: func(values []octosql.Value) (octosql.Value, error) {
+						nullEncountered := false
 						for i := range values[1].List {
+							if values[1].List[i].TypeID == octosql.TypeIDNull {
+								nullEncountered = true
+								continue
+							}
 							if values[0].Equal(values[1].List[i]) {
 								return octosql.NewBoolean(true), nil
 							}
+						}
+						if nullEncountered {
+							// The comparison with a NULL element is unknown.
+							return octosql.NewNull(), nil
 						}
 						return octosql.NewBoolean(false), nil
 					},
@@ -1095,14 +1107,28 @@ func FunctionMap() map[string]physical.FunctionDetails {
 						if ts[1].TypeID != octosql.TypeIDTuple {
 							return octosql.Type{}, false
 						}
+						for _, element := range ts[1].Tuple.Elements {
+							if octosql.Null.Is(element) == octosql.TypeRelationIs {
+								return octosql.TypeSum(octosql.Boolean, octosql.Null), true
+							}
+						}
 						return octosql.Boolean, true
 					},
 					Strict: true,
 					Function: func(values []octosql.Value) (octosql.Value, error) {
+						nullEncountered := false
 						for i := range values[1].Tuple {
+							if values[1].Tuple[i].TypeID == octosql.TypeIDNull {
+								nullEncountered = true
+								continue
+							}
 							if values[0].Equal(values[1].Tuple[i]) {
 								return octosql.NewBoolean(true), nil
 							}
+						}
+						if nullEncountered {
+							// The comparison with a NULL element is unknown.
+							return octosql.NewNull(), nil
 						}
 						return octosql.NewBoolean(false), nil
 					},
@@ -1120,14 +1146,26 @@ func FunctionMap() map[string]physical.FunctionDetails {
 						if ts[1].TypeID != octosql.TypeIDList {
 							return octosql.Type{}, false
 						}
+						if ts[1].List.Element != nil && octosql.Null.Is(*ts[1].List.Element) == octosql.TypeRelationIs {
+							return octosql.TypeSum(octosql.Boolean, octosql.Null), true
+						}
 						return octosql.Boolean, true
 					},
 					Strict: true,
 					Function: func(values []octosql.Value) (octosql.Value, error) {
+						nullEncountered := false
 						for i := range values[1].List {
+							if values[1].List[i].TypeID == octosql.TypeIDNull {
+								nullEncountered = true
+								continue
+							}
 							if values[0].Equal(values[1].List[i]) {
 								return octosql.NewBoolean(false), nil
 							}
+						}
+						if nullEncountered {
+							// The comparison with a NULL element is unknown.
+							return octosql.NewNull(), nil
 						}
 						return octosql.NewBoolean(true), nil
 					},
@@ -1140,14 +1178,28 @@ func FunctionMap() map[string]physical.FunctionDetails {
 						if ts[1].TypeID != octosql.TypeIDTuple {
 							return octosql.Type{}, false
 						}
+						for _, element := range ts[1].Tuple.Elements {
+							if octosql.Null.Is(element) == octosql.TypeRelationIs {
+								return octosql.TypeSum(octosql.Boolean, octosql.Null), true
+							}
+						}
 						return octosql.Boolean, true
 					},
 					Strict: true,
 					Function: func(values []octosql.Value) (octosql.Value, error) {
+						nullEncountered := false
 						for i := range values[1].Tuple {
+							if values[1].Tuple[i].TypeID == octosql.TypeIDNull {
+								nullEncountered = true
+								continue
+							}
 							if values[0].Equal(values[1].Tuple[i]) {
 								return octosql.NewBoolean(false), nil
 							}
+						}
+						if nullEncountered {
+							// The comparison with a NULL element is unknown.
+							return octosql.NewNull(), nil
 						}
 						return octosql.NewBoolean(true), nil
 					},
